@@ -53,11 +53,13 @@ class SeqDomain(Domain):
             ('count()', 'count()', Inf(range(INFP))),
             ('range-bigstep', 'range(0, 10, %s)' % xint(B - 1), Fin((0,))),
             ('range-bigstep-neg', 'range(5, 0, %s)' % xint(-(B - 1)), Fin((5,))),
+            # index * step leaves the 64-bit range while the element does not
+            ('range-span', 'range(%s, %s, %s)' % (xint(-B), xint(B - 1), xint(B - 1)), Fin((-B, -1, B - 2))),
+            ('range-span-quarter', 'range(%s, %s, %s)' % (xint(-B), xint(B - 1), xint(B // 2)), Fin((-B, -B // 2, 0, B // 2))),
         ]
         if self.tier != 'quick':
             out += [
                 ('range-hi', 'range(%s, %s)' % (xint(B - 3), xint(B - 1)), Fin((B - 3, B - 2))),
-                ('range-span', 'range(%s, %s, %s)' % (xint(-B), xint(B - 1), xint(B - 1)), Fin((-B, -1, B - 2))),
                 ('range-span-neg', 'range(%s, %s, %s)' % (xint(B - 1), xint(-B), xint(-(B - 1))), Fin((B - 1, 0, -(B - 1)))),
                 ('range-lo', 'range(%s, %s)' % (xint(-B), xint(-B + 2)), Fin((-B, -B + 1))),
                 ('count(3,2)', 'count(3, 2)', Inf(3 + 2 * i for i in range(INFP))),
@@ -88,6 +90,10 @@ class SeqDomain(Domain):
             out.append(('pop(0)', 'S.pop(0)', ERR))
             out.append(('set(0)', 'S.set(0, 9)', ('MAYBE', Inf((9,) + tuple(m[1:])))))
             out.append(('map(inc)', 'S.map(inc)', Inf(x + 1 for x in m)))
+            # all items of an infinite sequence, repeated: the first copy never ends
+            out.append(('repeat(2)', 'S.repeat(2)', Inf(m)))
+            out.append(('mul(3)', 'S * 3', Inf(m)))
+            out.append(('repeat()', 'S.repeat()', Inf(m)))
             out.append(('to_array', 'S.to_array()', ERR))
             out.append(('reverse', 'S.reverse()', ERR))
             out.append(('sort', 'S.sort(icmp)', ERR))
